@@ -16,7 +16,8 @@ THOROUGH = {'core': 240, '*': 14}
 
 ASSUMPTIONS = [
     'Python-transpilable subset generated: stand-alone subroutine, integer / real(real64) / logical scalars with every intent, 1-d and 2-d '
-    'explicit-shape arrays, DO loops, DO WHILE, IF/ELSE IF/ELSE, MIN/MAX/ABS, ** with integer exponents; one pool each adds: lower bounds '
+    'explicit-shape arrays, DO loops (literal strides and strides given by an integer input taking both signs), DO WHILE, EXIT/CYCLE, IF/ELSE IF/ELSE, '
+    'MIN/MAX/ABS, MOD, INT(), ** with integer exponents (real powers also as numerators, factors and denominators of divisions); one pool each adds: lower bounds '
     'other than 1, strides that do not hit the bound, DO variable read after the loop, integer division, MOD, SIGN, implicit real->integer '
     'conversion, INT(), SELECT CASE, EXIT/CYCLE, array sections',
     'only the numeric VALUE of a result is compared (python int / float / numpy scalar are not distinguished: an integer result delivered as '
